@@ -22,7 +22,8 @@ import RV.Base.Proto
     contexts [s p o]            -> G g,g,…              (sorted)
     namedquads                  -> Q s,p,o,g …          (sorted)
     opaque                      -> ok                   (a read whose answer is not modelled)
-    slice s p o g lim off       -> ok                   (LIMIT/OFFSET read: flush modelled, answer not; `-` = unset)
+    slice s p o g lim off [ob]  -> ok                   (LIMIT/OFFSET/"ORDER BY" read: flush modelled, answer not; `-` = unset)
+    nop                         -> ok                   (a call that neither reads nor writes: re-open, close, bind, …)
     obs                         -> s,p,o,g s,p,o,g … | g,g,…    endpoint content (default graph = 0)
     queue                       -> number of queued edit strings (diagnostic)
 
@@ -151,8 +152,8 @@ def showOpt (x : Option Nat) : String := match x with | none => "*" | some n => 
 def showP (p : TPat) : String := s!"{showOpt p.1},{showOpt p.2.1},{showOpt p.2.2}"
 
 def showUOp : UOp → String
-  | .insertData g ts => s!"I{showG g}:" ++ "+".intercalate (ts.map showT)
-  | .deleteData g ts => s!"D{showG g}:" ++ "+".intercalate (ts.map showT)
+  | .insertData g ts => s!"I{showG g}:" ++ "+".intercalate (sortStrs (ts.map showT))
+  | .deleteData g ts => s!"D{showG g}:" ++ "+".intercalate (sortStrs (ts.map showT))
   | .deleteWhere g p => s!"W{showG g}:{showP p}"
   | .deleteNamed p => s!"N:{showP p}"
   | .dropGraph g => s!"X{showG g}"
@@ -163,8 +164,8 @@ def showOT (st : St) (x : Option TTerm) : String := match x with | none => "*" |
 def showTP (st : St) (p : TPatT) : String := s!"{showOT st p.1},{showOT st p.2.1},{showOT st p.2.2}"
 
 def showTUOp (st : St) : TUOp → String
-  | .insertData g ts => s!"I{idOfG st g}:" ++ "+".intercalate (ts.map (showTT st))
-  | .deleteData g ts => s!"D{idOfG st g}:" ++ "+".intercalate (ts.map (showTT st))
+  | .insertData g ts => s!"I{idOfG st g}:" ++ "+".intercalate (sortStrs (ts.map (showTT st)))
+  | .deleteData g ts => s!"D{idOfG st g}:" ++ "+".intercalate (sortStrs (ts.map (showTT st)))
   | .deleteWhere g p => s!"W{idOfG st g}:{showTP st p}"
   | .deleteNamed p => s!"N:{showTP st p}"
   | .dropGraph g => s!"X{idOfG st g}"
@@ -220,15 +221,22 @@ def firstUnbound (p : TPat) : Option Pos :=
   if p.1.isNone then some .s else if p.2.1.isNone then some .p else if p.2.2.isNone then some .o else none
 
 /-- the query a read sends (canonical form, text), `none` when nothing is sent (refused) -/
-def queryOf (st : St) (rd : Read) (slice : Option (TPat × GName × Option Nat × Option Nat)) :
+def posOf? (w : String) : Option (Option Pos) :=
+  if w = "-" then some none else if w = "s" then some (some .s) else if w = "p" then some (some .p)
+  else if w = "o" then some (some .o) else none
+
+def queryOf (st : St) (rd : Read) (slice : Option (TPat × GName × Option Nat × Option Nat × Option (Option Pos))) :
     Option (String × Option Str) :=
   let hook := st.r.hook
   match slice with
-  | some (p, g, lim, off) =>
+  | some (p, g, lim, off, ob) =>
     match encPat hook p with
     | none => none
     | some e =>
-      let ord := if lim.isSome || off.isSome then firstUnbound e else none
+      -- ORDER BY is injected when any of the LIMIT / OFFSET / "ORDER BY" attributes is set: the first unbound
+      -- position, else (fully bound) the variable given in the "ORDER BY" attribute, else nothing
+      let ord := if lim.isSome || off.isSome || ob.isSome then
+          (match firstUnbound e with | some x => some x | none => ob.join) else none
       some (s!"Q{showG g}:T:{showP e}:{showPos ord}:{showON lim}:{showON off}",
             (patT st e).bind (fun pp => wTriplesQuery pp ord lim off))
   | none =>
@@ -253,7 +261,7 @@ def allSome : List (Option Str) → Option (List Str)
     | _, _ => none
 
 /-- run one model step and record what the model says was sent -/
-def runOp (st : St) (op : Op) (slice : Option (TPat × GName × Option Nat × Option Nat) := none) : St × String :=
+def runOp (st : St) (op : Op) (slice : Option (TPat × GName × Option Nat × Option Nat × Option (Option Pos)) := none) : St × String :=
   let r := st.r
   let (r', out) := r.step op
   -- the strings this call appended to the queue
@@ -375,8 +383,21 @@ def step (st : St) : List String → St × String
   | ["opaque"] => doOp st (some (.read .opaque))
   | ["slice", a, b, c, g, l, f] =>
     match pat? a b c, gname? g, optNatDash? l, optNatDash? f with
-    | some p, some g, some l, some f => runOp st (.read .opaque) (some (p, g, l, f))
+    | some p, some g, some l, some f => runOp st (.read .opaque) (some (p, g, l, f, none))
     | _, _, _, _ => (st, "bad-op")
+  | ["slice", a, b, c, g, l, f, ob] =>
+    -- ob: `-` = no "ORDER BY" attribute, `x` = attribute set to something that is no variable, s|p|o = that variable
+    match pat? a b c, gname? g, optNatDash? l, optNatDash? f with
+    | some p, some g, some l, some f =>
+      let obv : Option (Option (Option Pos)) :=
+        if ob = "-" then some none else if ob = "x" then some (some none) else (posOf? ob).map some
+      match obv with
+      | some o => runOp st (.read .opaque) (some (p, g, l, f, o))
+      | none => (st, "bad-op")
+    | _, _, _, _ => (st, "bad-op")
+  | ["nop"] =>
+    -- an API call that neither reads nor writes (re-open, close, bind, switching method / format)
+    ({ st with lastSent := [], lastText := [] }, "ok")
   | ["obs"] => (st, showQuads st.r.ep.quads ++ " | " ++ showNames st.r.ep.graphs)
   | ["queue"] => (st, toString st.r.edits.length)
   | _ => (st, "bad-op")
